@@ -327,3 +327,19 @@ mutant("C14-M13", "C14", "R14c", "maximum-spend accumulates lower bounds", OP, "
 twin("C14-T1", "C14", "assert -> if not ...: raise FailedConstraint()", OP, "constrain_sum_bounded", "    assert np.isclose(sol.sum(), s), f\"FAILED as {sol} has a total of {sol.sum()} which is not sufficiently close to the target value {s}\"\n", "    if not np.isclose(sol.sum(), s):\n        raise FailedConstraint()\n")
 twin("C14-T2", "C14", "np.clip(res['x'], lb_scaled, ub_scaled)", OP, "constrain_sum_bounded", "sol = np.minimum(np.maximum(res[\"x\"], lb_scaled), ub_scaled) * s", "sol = np.clip(res[\"x\"], lb_scaled, ub_scaled) * s")
 twin("C14-T3", "C14", "success test written positively", OP, "constrain_sum_bounded", "    if not res[\"success\"]:\n        logger.warning(\"constrain_sum_bounded() failed - rejecting proposed parameters\")\n        raise FailedConstraint()\n", "    if res[\"success\"]:\n        pass\n    else:\n        raise FailedConstraint()\n")
+
+# =============================================================================================== C15
+CA = "atomica/calibration.py"
+RC = "atomica/reconciliation.py"
+PJ = "atomica/project.py"
+mutant("C15-M1", "C15", "R15a", "calibrate restore moved out of finally", CA, "calibrate", "    finally:\n        project.settings.sim_end = original_sim_end  # Restore the simulation end year\n", "    project.settings.sim_end = original_sim_end\n")
+mutant("C15-M3", "C15", "R15c", "calibrate passes the caller's parset to the optimiser", CA, "calibrate", "\"parset\": parset.copy(),", "\"parset\": parset,")
+mutant("C15-M4", "C15", "R15c", "optimize updates the caller's instructions", OP, "optimize", "    optimization.update_instructions(x_opt, model.program_instructions)\n", "    optimization.update_instructions(x_opt, instructions)\n")
+mutant("C15-M5", "C15", "R15c", "reconcile updates the caller's progset", RC, "reconcile", "    _update_progset(x_opt, mapping, new_progset)  # Apply the changes to the progset", "    _update_progset(x_opt, mapping, progset)")
+mutant("C15-M7", "C15", "R15a", "finally restores a different attribute", CA, "calibrate", "        project.settings.sim_end = original_sim_end  # Restore the simulation end year", "        project.settings.sim_start = original_sim_end")
+mutant("C15-M8", "C15", "R15c", "_convert_to_single_year edits the program set in place", RC, "_convert_to_single_year", "    new_progset = sc.dcp(progset)", "    new_progset = progset")
+mutant("C15-M9", "C15", "R15a", "calibrate returns early inside the modified window", CA, "calibrate", "    project.settings.sim_end = min(project.data.tvec[-1], original_sim_end)\n", "    project.settings.sim_end = min(project.data.tvec[-1], original_sim_end)\n    if not x0:\n        return parset\n")
+mutant("C15-M10", "C15", "R15c", "objective reuses one model across evaluations", OP, "_objective_fcn", "        model = pickle.loads(pickled_model)", "        model = pickled_model")
+mutant("C15-M11", "C15", "R15c", "get_hard_constraints applies x0 to the caller's instructions", OP, "Optimization.get_hard_constraints", "        instructions = sc.dcp(instructions)\n", "")
+twin("C15-T2", "C15", "parset.copy() bound to a local first", CA, "calibrate", "    args = {\n        \"project\": project,\n        \"parset\": parset.copy(),", "    working = parset.copy()\n    args = {\n        \"project\": project,\n        \"parset\": working,")
+twin("C15-T3", "C15", "restore in a nested try/finally", CA, "calibrate", "    except Exception as e:\n        raise e\n    finally:", "    finally:")
